@@ -399,7 +399,10 @@ class HierDictDocument(DictDocument):
             mo = member_attrs.max_occurs
             if mo > 1:
                 subinst = getattr(inst, k, None)
-                if subinst is None:
+                if subinst is None or frequencies[k] == 0:
+                    # nothing of this member was read yet: what the instance
+                    # holds is the declared default, which is shared between
+                    # requests (and need not be a list).
                     subinst = []
 
                 if v is None:
